@@ -10,14 +10,14 @@ func init() {
 		"C03": {"two_writer_rounds_released_by_close": 2, "commit_frame_padded": 100},
 		"C01": {"last_connection_closed_before_change": 1},
 		"C05": {"points_recreate-first-tx": 5, "points_wal-to-rollback": 5, "mode_after_recovery_checked": 300, "first_wal_tx_interrupted": 1},
-		"C07": {"halt_acquire_failed_and_release_failed": 1},
+		"C07": {"halt_acquire_failed_and_release_failed": 1, "import_demoted_during_upload": 1},
 		"C08": {"loss_by_unanswered_renewal": 1, "handoff_to_node_zero_refused": 1},
 		"C11": {"range_calls_refused": 50},
-		"C12": {"range_concurrent_refusals": 3000},
+		"C12": {"range_concurrent_refusals": 3000, "range_racing_refusals": 1000},
 		"C13": {"late_forward_to_former_primary_refused": 4},
-		"C14": {"recreated_with_other_page_size": 2, "fresh_idle_primary_adopted_existing_service": 1},
+		"C14": {"recreated_with_other_page_size": 2, "fresh_idle_primary_adopted_existing_service": 1, "background_refused_upload_then_commits_kept": 1},
 		"C16": {"fault_refused_then_restart_old": 10},
-		"C17": {"C_page0_frames": 30, "A_first_transaction": 100},
+		"C17": {"C_page0_frames": 30, "A_first_transaction": 100, "A_persist_journal_with_stale_segments": 100},
 	}
 	if chk := Registry["C03"]; chk != nil {
 		addMountFloors(chk, func(tier string) map[string]int { return map[string]int{"kmount_wal_psow0_cases": 2} })
